@@ -340,4 +340,15 @@ def r_enum(ctx):
     repo_idioms(ctx, "C03.R8", ('connection',))
 
 
-RULES = [("C03.R1", r1), ("C03.R2", r2), ("C03.R3", r3), ("C03.R4", r4), ("C03.R5", r5), ("C03.R6", r6), ("C03.R7", r7), ("C03.R8", r_enum)]
+
+def r_shared_r9(ctx):
+    """the sending sequence number visits every ring value once per turn: SeqNum addition wraps from M to 1 and never yields 0 (shared C08.R1); a wrap that revisits a value inside one clock second repeats a nonce"""
+    from . import c08 as _m
+    from .c02 import _Sub
+    for _f in ['r1']:
+        getattr(_m, _f)(_Sub(ctx, "C03.R9"))
+
+
+EXPLANATION = EXPLANATION + ' (R9) the sending sequence number visits every ring value once per turn: SeqNum addition wraps from M to 1 and never yields 0 (shared C08.R1); a wrap that revisits a value inside one clock second repeats a nonce.'
+
+RULES = [("C03.R1", r1), ("C03.R2", r2), ("C03.R3", r3), ("C03.R4", r4), ("C03.R5", r5), ("C03.R6", r6), ("C03.R7", r7), ("C03.R8", r_enum), ("C03.R9", r_shared_r9)]
